@@ -63,6 +63,24 @@ fn main() {
         eprintln!("INCONCLUSIVE: watchdog expired after {limit} s");
         std::process::exit(2);
     });
+    // memory watchdog: runaway allocation (e.g. a loop in the code under test that never terminates and keeps
+    // pushing) is reported as inconclusive before the kernel kills the process
+    std::thread::spawn(move || {
+        let limit_kb: u64 = std::env::var("VERIF_MAX_RSS_GB").ok().and_then(|v| v.parse::<u64>().ok()).unwrap_or(24) * 1024 * 1024;
+        loop {
+            std::thread::sleep(std::time::Duration::from_millis(50));
+            let rss_kb = std::fs::read_to_string("/proc/self/statm").ok().and_then(|t| t.split_whitespace().nth(1).and_then(|p| p.parse::<u64>().ok())).map(|pages| pages * 4).unwrap_or(0);
+            if rss_kb > limit_kb {
+                let phase = vharness::engine::PHASE.lock().map(|g| g.clone()).unwrap_or_default();
+                if vharness::engine::VIOLATION_SEEN.load(std::sync::atomic::Ordering::SeqCst) {
+                    eprintln!("memory watchdog: resident set {} MiB while in `{phase}`; a violation was already reported", rss_kb / 1024);
+                    std::process::exit(1);
+                }
+                eprintln!("INCONCLUSIVE: memory watchdog: resident set {} MiB while in `{phase}` (runaway allocation in the code under test or in the harness)", rss_kb / 1024);
+                std::process::exit(2);
+            }
+        }
+    });
     let mut ctx = Ctx::new(&id, tier, seed);
     if replay.is_some() {
         ctx.set_strict();
